@@ -36,6 +36,12 @@ def coq_op(o):
         return "SBlockInv"
     if n == "restart":
         return "SRestart"
+    if n == "peer_txblock":
+        return "(STxBlock %d %s)" % (o[1], "true" if o[2] else "false")
+    if n == "peer_burst_rel":
+        return "(SBurstRel %d)" % o[1]
+    if n == "wait_delivered":
+        return "(SDelivered %d)" % o[1]
     if n == "peer_headers":
         return "(SHeaders %d)" % o[1]
     if n == "peer_blocks":
@@ -248,6 +254,48 @@ def scenario(rng, kind):
             g.traffic()
         g.add("peer_close_stop", r.range(0, 1))
         g.ops += [list(x) for x in TAIL]
+    elif kind == "blockfail":
+        # a block with a NEW relevant tx whose spent output cannot be fetched: ProcessBlock fails in the middle
+        # (it holds the tx repository's unconfirmed lock there), processBlocks leaves; then Stop, or first a lost
+        # connection (the restart saves too) and then Stop
+        g.add("start")
+        g.handshake()
+        if r.chance(1, 2):
+            g.sync_some(3)
+            g.finish_blocks()
+        if r.chance(1, 2):
+            g.insync()
+        g.add("hold", 100)
+        g.ntx += 1
+        g.add("peer_txblock", g.ntx, 1)
+        g.tip += 1
+        g.add("release", 1)
+        if r.chance(1, 2):
+            g.add(r.choice(["peer_close", "peer_reset"]))
+            g.add("peer_accept")
+        g.stop_tail()
+    elif kind == "txblocks":
+        # blocks carrying relevant / other txs, processed normally
+        g.add("start")
+        g.handshake()
+        for _ in range(r.range(1, 3)):
+            g.ntx += 1
+            g.add("peer_txblock", g.ntx, r.range(0, 1))
+            g.tip += 1
+        g.stop_tail()
+    elif kind == "backpressure":
+        # in sync, a relevant tx sits in a held handler, the peer sends 150 more DISTINCT relevant txs (100 fill the
+        # channel, monitorIncoming waits inside Add), the handler returns: every one of the 151 is delivered
+        g.add("start")
+        g.handshake()
+        g.insync()
+        g.add("hold", r.choice([1, 100]))
+        g.tx(True)
+        n = r.choice([150, 150, 120, 101])
+        g.add("peer_burst_rel", n)
+        g.add("release", 0)
+        g.add("wait_delivered", n + len(g.rel))
+        g.stop_tail()
     elif kind == "apifill":
         # a concurrent caller of the public API: a relevant tx sits in a held handler / fetcher call (nothing is
         # taken off the tx channel), the application fills the 100 slots through Node.HandleTx, call 101 waits for
@@ -379,10 +427,12 @@ KINDS_QUICK = ["connecting", "connecting", "handshake", "handshake", "handshake"
                "midblocks", "heldblock", "heldblock", "insync", "insync", "insync", "heldtx", "heldtx", "abort",
                "afterloss", "afterloss", "afterloss", "reconnecting", "reconnected", "reconnected", "silence",
                "stoprestarting", "stoprestarting", "stoprestarting", "apifill", "apifill", "apicalls",
-               "persist_inv", "persist_inv", "persist_api", "persist_api"]
+               "persist_inv", "persist_inv", "persist_api", "persist_api", "blockfail", "blockfail", "blockfail",
+               "txblocks", "backpressure"]
 WEIGHTS = [("connecting", 2), ("handshake", 3), ("headers", 3), ("midblocks", 4), ("heldblock", 3), ("insync", 5),
            ("heldtx", 3), ("abort", 2), ("afterloss", 5), ("reconnecting", 2), ("reconnected", 5), ("silence", 1), ("stoprestarting", 4), ("apifill", 3),
-           ("apicalls", 2), ("persist_inv", 3), ("persist_api", 3)]
+           ("apicalls", 2), ("persist_inv", 3), ("persist_api", 3), ("blockfail", 4),
+           ("txblocks", 2), ("backpressure", 2)]
 
 
 UOPS = {"ustart": "UStart", "ufill": "UFill", "ureset": "UReset", "ustop": "UStop", "ucounts": "UCounts",
@@ -490,6 +540,42 @@ def persist_scenarios(tier, rng, workdir):
                                                "monitor_failures": len(r["monitor_fail"])}}}
 
 
+def _side_suite(name, kinds, tier, rng, workdir, salt, nquick, nthorough):
+    n = nquick if tier == "quick" else nthorough
+    cases = []
+    for i in range(n):
+        r = rng.fork(salt + i)
+        cases.append(scenario(r, kinds[i % len(kinds)]))
+    for c in cases:
+        c["coq_ops"] = [coq_op(o) for o in c["ops"]]
+    su = Suite(name, "shutdown", ["From V.model Require Import Shutdown."],
+               [{"key": name, "optype": "sop", "cases": cases, "model": "cmp_run srun",
+                 "monitors": {"c19": "c19_monitor"}}])
+    r = checklib.eval_suite(su, os.path.join(workdir, name))
+    red = []
+    if r["coq_errors"]:
+        red.append({"what": "model-evaluation", "suite": su.name, "detail": r["coq_errors"][0]})
+    if r["model_fail"]:
+        red.append({"what": "correspondence", "suite": su.name, "count": len(r["model_fail"]),
+                    "first": checklib.slim(r["model_fail"][0])})
+    hist = {}
+    for c in cases:
+        for o in c["ops"]:
+            hist[o[0]] = hist.get(o[0], 0) + 1
+    return {"failures": r["monitor_fail"], "red": red, "evaluations": r["evaluations"],
+            "coverage": {name: {"cases": r["evaluations"], "steps": r["steps"], "op_histogram": hist,
+                                "model_mismatches": len(r["model_fail"]),
+                                "monitor_failures": len(r["monitor_fail"])}}}
+
+
+def completeness_scenarios(tier, rng, workdir):
+    """Delivery under back-pressure on the real run loop, for the `extra` hook of C03: a relevant tx sits in a held
+    handler / fetcher call, the peer sends 101-150 more distinct relevant txs while in sync, the call returns;
+    monitor code 911: fewer distinct new-tx notifications than relevant txs received in sync.
+    Failure records carry suite = "shutdown_complete"."""
+    return _side_suite("shutdown_complete", ["backpressure"], tier, rng, workdir, 19800, 2, 10)
+
+
 def keyfn(rec):
     if rec.get("suite") == "untrusted":
         ops = rec.get("ops", [])
@@ -519,6 +605,10 @@ def keyfn(rec):
             insync = True
         elif o[0] in ("peer_blockinv", "restart", "peer_close", "peer_reset"):
             insync = False
+    if any(o[0] == "peer_burst_rel" for o in before):
+        shape = "backpressure-" + shape
+    if any(o[0] == "peer_txblock" for o in before):
+        shape = "txblock-" + shape
     if opn == "stored" and not insync:
         shape = "not-in-sync-" + shape
     return "shutdown:%s:%s:%s:%s" % (rec.get("checker"), code, opn, shape)
@@ -543,7 +633,7 @@ SPEC = {
         "one untrusted node stands for all; application calls other than Stop (SendTx, BroadcastTx, HandleTx) are outside the model; the Node.Run scenarios run with UntrustedCount = 0; the untrusted side is tied separately: a real UntrustedNode (real Run / monitorIncoming / sendOutgoing / Stop) over loopback TCP against a peer that never reads and keeps pinging until the 100-slot outgoing queue is full and the reader waits inside Add (component untrusted); its Run is the same phased protocol in small, so its scenarios are run on the same transition system (MI, RT, SO and the outgoing channel)",
         "bounded time is checked as: Stop returns within 4 s (the phase loops poll every 100 ms; typical 0.4 - 0.7 s); net.Dial to a blackholed address is outside (connect is a step that returns)",
     ],
-    "rule": "scenarios: stop while connecting (peer not listening), during the handshake (before accept / before version / after version), during header sync, in the middle of the block download (also with the HandleHeaders callback of a block held across the stop request), in sync with tx / addr / ping traffic (also with HandleTx or the output fetcher held), right after close / reset of the trusted connection at 0-750 ms, Stop placed exactly inside the shutdown that precedes the reconnect (flags polled: needsRestart, stopping, connection cleared), during the reconnect loop, after reconnection at each handshake stage, peer silence with aged time-outs, consumer abort with and without a full channel; a concurrent caller of the public API (Node.HandleTx) filling the tx channel while a handler is held, the 101st call waiting for room across the stop request; Stop while NOT in sync with a delivered relevant tx (in sync cleared by a block inventory; tx fed through HandleTx during the initial sync) followed by a restart on the same storage and re-announcement; untrusted node with its outgoing queue full / after a reset by the peer, then Stop; each Node.Run scenario ends with quiet (no callback after Stop returned), stored (fresh repositories loaded from the store vs final in-memory data vs announcements), announced (heights contiguous, none twice); distinct = distinct (cfg, ops)",
+    "rule": "scenarios: stop while connecting (peer not listening), during the handshake (before accept / before version / after version), during header sync, in the middle of the block download (also with the HandleHeaders callback of a block held across the stop request), in sync with tx / addr / ping traffic (also with HandleTx or the output fetcher held), right after close / reset of the trusted connection at 0-750 ms, Stop placed exactly inside the shutdown that precedes the reconnect (flags polled: needsRestart, stopping, connection cleared), during the reconnect loop, after reconnection at each handshake stage, peer silence with aged time-outs, consumer abort with and without a full channel; a block with a new relevant tx whose output fetch fails in the middle of ProcessBlock, then Stop or a lost connection and Stop; 101-150 distinct relevant txs under back-pressure (a handler held) all delivered; a concurrent caller of the public API (Node.HandleTx) filling the tx channel while a handler is held, the 101st call waiting for room across the stop request; Stop while NOT in sync with a delivered relevant tx (in sync cleared by a block inventory; tx fed through HandleTx during the initial sync) followed by a restart on the same storage and re-announcement; untrusted node with its outgoing queue full / after a reset by the peer, then Stop; each Node.Run scenario ends with quiet (no callback after Stop returned), stored (fresh repositories loaded from the store vs final in-memory data vs announcements), announced (heights contiguous, none twice); distinct = distinct (cfg, ops)",
 }
 
 if __name__ == "__main__":
